@@ -46,6 +46,14 @@ def families(tier, seed):
                 out.append(_mk(f'make_rabin_transducer holds={nh} goals={ng} L=2 qinit={q} {mn} {sh.name}',
                                gt.h_rabin_transducer, sh,
                                dict(moore=moore, plus_one=plus_one, n_holds=nh, n_goals=ng, L=2, T=2, qinit=q)))
+        if tier != 'quick' and sh in shs[:2]:
+            # longer iterate lists: three outer layers, three attractor layers, three goals
+            for moore, plus_one in shapes.MODES:
+                mn = shapes.mode_name(moore, plus_one)
+                for nh, ng, L_, T_ in ((1, 1, 3, 3), (1, 3, 2, 2), (2, 1, 3, 2)):
+                    out.append(_mk(f'make_rabin_transducer holds={nh} goals={ng} L={L_} T={T_} qinit={QINITS[2]} {mn} {sh.name}',
+                                   gt.h_rabin_transducer, sh,
+                                   dict(moore=moore, plus_one=plus_one, n_holds=nh, n_goals=ng, L=L_, T=T_, qinit=QINITS[2])))
     n = 120 if tier == 'quick' else 1500
     for i in range(8):
         out.append(dict(name=f'closed-loop monitor rabin games part {i}', run=gm.monitor('rabin', seed * 100 + i, n // 8, 'cudd'), label='bounded'))
